@@ -331,3 +331,38 @@ def stale_aliases(facts, fams=None):
                     walk(s, av)
     out.append(ob("lint.stale-alias", "all:aliases-scanned", "", "discharged", "%d local pointer aliases scanned" % n_alias, ""))
     return out
+
+
+def narrow_variable_shift(facts, fams=None):
+    """`x << amount` with a NON-constant amount evaluated in 32 bits and only then converted to a 64-bit type (return value, wider
+    operand, initialiser): weights of the form count << level wrap at 2^32 long before the 64-bit destination could hold them
+    (n of a few billion is reached through merge trees).  The widening has to happen before the shift."""
+    fns = functions_by(facts)
+    out = []
+    n = 0
+    for pat, fn in sorted(fns.items()):
+        if fams and not any(pat.startswith(f) for f in fams):
+            continue
+        idx = [0]
+
+        def v(x):
+            nonlocal n
+            if x.get("k") == "Bin" and x.get("op") == "<<":
+                n += 1
+            if x.get("k") == "Cast" and x.get("impl") and x.get("ck") == "IntegralCast" and x.get("sz") == 8:
+                e = x.get("e") or {}
+                while e.get("k") == "Paren":
+                    e = e.get("e") or {}
+                if e.get("k") == "Bin" and e.get("op") == "<<" and e.get("sz") == 4:
+                    from astu import strip_all
+                    r = strip_all(e["r"])
+                    l = strip_all(e["l"])
+                    if "v" in r or r.get("k") == "Int":
+                        return  # constant shift
+                    if "v" in l or l.get("k") == "Int":
+                        return  # 1 << lg: a power of two below 2^31 by the configuration limits of the sketch
+                    out.append(ob("lint.narrow-shift", "%s:narrow-shift#%d" % (short(fn["patq"]), idx[0]), x["loc"], "violated", "`%s` is evaluated in 32 bits and only then converted to %s: the product of a count and a power-of-two weight wraps at 2^32 although the destination is 64 bits wide (ranks / weights of sketches holding billions of items become wrong)" % (txt(e), x.get("t")), fn["qname"]))
+                    idx[0] += 1
+        walk(fn["body"], v)
+    out.append(ob("lint.narrow-shift", "all:shifts-scanned", "", "discharged", "%d shift expressions scanned" % n, ""))
+    return out
